@@ -125,6 +125,12 @@ def call_pool():
         pool.append({"tag": "throwing", "kind": "THR", "a": 1, "b": part, "input": t})
     for q in QUERIES:
         pool.append({"tag": "query" if q else "query-empty", "kind": "QRY", "a": 0, "b": 0, "input": q})
+    # identifiers beyond the lexer's length limit: reported, and whatever the token carries must not come from an earlier call
+    longid = "a" * 4100
+    pool.append({"tag": "long-ident", "kind": "BLK", "a": 1, "b": 12, "input": longid + " + 1"})
+    pool.append({"tag": "long-ident", "kind": "XTA", "a": 1, "b": 0, "input": "int x = %s;\nprocess P() { state S; init S; }\nsystem P;" % longid})
+    pool.append({"tag": "long-ident", "kind": "QRY", "a": 0, "b": 0, "input": "E<> %s > 0" % longid})
+    pool.append({"tag": "long-ident", "kind": "BLK", "a": 1, "b": 1, "input": "int b%s; int c = b%s;" % (longid, longid)})
     # the FILE* / file-name entry points (flex reads through its own buffer instead of a scanned string)
     for t in XTA_GOOD[:2] + XTA_BAD[:4]:
         pool.append({"tag": "xta-file", "kind": "TFI", "a": 1, "b": 0, "input": t})
@@ -266,6 +272,38 @@ WRAP_TEXTS = ["int a;\nint b;\n/* c\n */ int c;\n", "/* one\n two\n three */\ncl
               "// line\n// line\nconst int K = 3;\r\nint z[K];\r\n", "int a; /* open\n\n\n"]
 
 
+def run_interleaved(ctx, exe, stats):
+    """a query against document A must give the same result whether or not other documents were parsed after A was built"""
+    seeds = M.seeds()
+    docs = [M.render(m) for m in seeds]
+    small = ('<?xml version="1.0" encoding="utf-8"?><nta><declaration>int k;</declaration><template><name>S</name><location id="id0"/>'
+             '<init ref="id0"/></template><system>system S;</system></nta>')
+    qs = ["A[] not deadlock", "E<> zz9 > 0", "A[] forall (i : int[0,1]) true", "E<> len > (", "E<> 1 +"]
+    n, bad = 0, 0
+    for ai, A in enumerate(docs):
+        for B in [small] + [d for bi, d in enumerate(docs) if bi != ai][:2]:
+            for q in qs:
+                items = [{"kind": "QXD", "a": k, "b": 0, "input": A + "\x01" + B + "\x01" + q} for k in (0, 1, 2)]
+                rc, out, err, _ = core.run_exe(exe, ["fresh"], stdin_text=script_of(items), timeout=TIMEOUT, env={"C15_TMPDIR": core.CACHE})
+                lines = [l for l in out.split("\n") if l.startswith("{")]
+                n += 1
+                try:
+                    rs = [strip(json.loads(l)) for l in lines]
+                except Exception:
+                    rs = []
+                if rc != 0 or len(rs) != 3 or rs[0] != rs[1] or rs[0] != rs[2]:
+                    bad += 1
+                    if bad == 1:
+                        why = "the process died (rc=%s)" % rc if (rc != 0 or len(rs) != 3) else \
+                            "exception %r / diagnostics %r instead of %r / %r" % (rs[1].get("exc") or rs[2].get("exc"), diag_shape(rs[1])[:2], rs[0].get("exc"), diag_shape(rs[0])[:2])
+                        ctx.finding("history:query-after-another-document", "the query %r against a document gives another result once a second document "
+                                    "has been parsed in between: %s" % (q, why),
+                                    {"entry": "parse_XML_buffer(A); [parse_XML_buffer(B) into another Document;] parseProperty(query) against A  (harness c15 kind QXD)",
+                                     "script": script_of(items), "results": lines[:3], "stderr": err[-1500:]})
+    stats["interleaved_document_cases"] = n
+    stats["interleaved_document_differences"] = bad
+
+
 def run_sequences(ctx, exe, seqs):
     import concurrent.futures as cf
     with cf.ThreadPoolExecutor(max(2, core.NCPU // 2)) as ex:
@@ -363,6 +401,7 @@ def run(ctx):
     seqs = wit + gen_state_sequences(ctx) + gen_sequences(ctx, pool)
     results = run_sequences(ctx, exe, seqs)
     seen = analyse(ctx, results, stats)
+    run_interleaved(ctx, exe, stats)
     # a seeded sample under the sanitizers (fork is slow there)
     sample = wit + gen_sequences(ctx, pool)[:(40 if not ctx.thorough else 400)]
     stats_a = {"calls": 0, "differences": 0, "by_tag": {}, "exceptions": {}, "calls_with_diagnostics": 0, "calls_crossing_2^31": 0,
